@@ -14,6 +14,7 @@ import (
 	"os"
 	"path/filepath"
 	"runtime/debug"
+	"slices"
 	"strings"
 	"syscall"
 	"testing"
@@ -50,6 +51,7 @@ type Scenario struct {
 	ShortRead  int           `json:"short_read,omitempty"`
 	Sweep      bool          `json:"sweep,omitempty"` // instead of the listed faults: a read error at every octet of every file, one parse each
 	Planted    *Planted      `json:"planted,omitempty"`
+	TruncLast  bool          `json:"trunc_last,omitempty"` // the last line of the top-level file is a record that stops before its last field (a domain name): the text ends in mid-record
 }
 
 // Planted is a single bad token put on a known line of a known file.
@@ -80,6 +82,12 @@ var soa = []string{
 }
 
 const plantedLine = "bad 300 IN A 999.1.1.1"
+
+// truncLines: records cut off before their last field, a domain name that the type cannot do without.
+var truncLines = []string{
+	"cut 300 IN MX 10", "cut 300 IN SRV 0 0 53", "cut 300 IN RP hostmaster.example.org.", "cut 300 IN MINFO r.example.org.", "cut 300 IN KX 10", "cut 300 IN RT 10",
+	"cut 300 IN AFSDB 1", "cut 300 IN LP 10", "cut 300 IN PX 10 a.example.org.", "cut 300 IN TALINK a.example.org.", "cut 300 IN NAPTR 100 50 \"s\" \"http\" \"\"", "cut MX 20",
+}
 
 // plantedLines: single-line records with one impossible token each (the token is the marker by
 // which the error is recognised), in the RDATA of record types whose parsers build their errors in
@@ -272,6 +280,13 @@ func Gen(seed uint64, tier string) any {
 			f.Lines = append(f.Lines[:at], append([]string{pl.line}, f.Lines[at:]...)...)
 			sc.Planted = &Planted{File: f.Name, Line: at + 1, Marker: pl.marker}
 		}
+	}
+	if sc.Kind == "zone" && sc.Planted == nil && len(sc.Files) > 0 && balanced(sc.Files[0].Lines) && core.Chance(r, 6) {
+		// the text ends in the middle of a record, right before a field that must be there
+		f := &sc.Files[0]
+		f.Lines = append(f.Lines, truncLines[r.IntN(len(truncLines))])
+		f.NoEOL = core.Chance(r, 50)
+		sc.TruncLast = true
 	}
 	if sc.Kind == "zone" && core.Chance(r, 3) {
 		sc.Sweep = true
@@ -728,6 +743,13 @@ func runZone(sc *Scenario, res *core.Result, logf func(string, ...any)) {
 			return
 		}
 	}
+	if last := at(sc.Files[0].Lines, len(sc.Files[0].Lines)-1); sc.TruncLast && slices.Contains(truncLines, last) {
+		res.Bump("oracle.P3_truncated_record_reported")
+		if ref.err == "" {
+			res.Fail("P3", "truncated-record-accepted", "the text ends in the middle of a record (%q, then end of input): the parser returned %d records and no error", last, len(ref.recs))
+			return
+		}
+	}
 	marker := "999.1.1.1"
 	if sc.Planted != nil && sc.Planted.Marker != "" {
 		marker = sc.Planted.Marker
@@ -1062,7 +1084,7 @@ func hashStrings(ss []string, extra string) uint64 {
 }
 
 func at(s []string, i int) string {
-	if i < len(s) {
+	if i >= 0 && i < len(s) {
 		return s[i]
 	}
 	return "<none>"
